@@ -58,6 +58,8 @@ class Prop:
     def oracle(self, case, line):
         if line.startswith("PANIC"):
             return "implementation panicked: " + line[:200]
+        if line.startswith("ABORT"):
+            return "the process died or hung on this case: " + line[:200]
         return None
 
     def known(self, case, line, failure):
